@@ -26,6 +26,8 @@ VALUE_SETS = [
     [10, 2**23 + 9, 2**23 + 10, 2**23 + 11],
     [2**24 - 1, 0, 2**23],
     [100, 50, 75, 25, 125],
+    [2**24 - 1, 0, 1, 0],  # the value 0 again after the wrap-around
+    [3, 5, 0, 0],
 ]
 GAPS = [0.0, 1e-6, 1.0, 127.9, 128.1, 10000.0]
 
@@ -52,7 +54,7 @@ def scripts(r, tier, idx, of):
                     continue
                 gaps = [r.choice(GAPS[:3]) for _ in perm]
                 term = r.choice(["none", "final-2.05", "final-4.04", "icmp", "none"])
-                yield {"path": path, "consumer": consumer, "first": 0 if r.random() < 0.9 else None, "notifs": [{"v": v, "gap": g, "type": r.choice(["NON", "CON"])} for v, g in zip(perm, gaps)], "term": term, "term_pos": r.randrange(0, len(perm) + 1), "term_gap": r.choice([0.0, 1e-6, 1.0]), "trail": 2, "class": "perm"}
+                yield {"path": path, "consumer": consumer, "first": r.choice([0, 0, 0, 0, 0, 7, 2**24 - 3, 2**24 - 3, None]), "notifs": [{"v": v, "gap": g, "type": r.choice(["NON", "CON"])} for v, g in zip(perm, gaps)], "term": term, "term_pos": r.randrange(0, len(perm) + 1), "term_gap": r.choice([0.0, 1e-6, 1.0]), "trail": 2, "class": "perm"}
 
 
 def window_script(r):
